@@ -23,9 +23,8 @@ answer depends on such a field fails its postconditions in this pass, with the s
 like their owner.  Constructors (`__init__`, `__post_init__`, `__new__`) are exempt: the object under construction has no history.
 
 What this does NOT know: an object invariant that ties a cache to the columns (a memo keyed on the column CONTENTS and checked on every read is
-correct, but its proof needs "memo = f(key)" as an invariant of the class).  Such a carrier fails here unless the contract states the
-invariant (`options["extra_attr_invariant"] = fn(E, vars) -> z3 Bool`, assumed in the second pass and -- as the obligation
-`<fn>/post/extra-attribute-invariant-kept` -- proved at every normal exit of both passes).
+correct, but its proof needs "memo = f(key)" as an invariant of the class).  Such a carrier fails its postconditions in the second pass;
+stating class invariants over extra attributes (assumed at entry of the second pass, proved at every exit) is not implemented.
 """
 from __future__ import annotations
 
